@@ -189,6 +189,13 @@ def gen_kernels():
         txt = ("(* GENERATED: harness/pytrans_itp.py could not translate the current source: %s *)\n"
                "Definition translation_failed : True := untranslatable_source.\n" % str(ex).replace("*)", "* )"))
     _write_gen("ItpGen.v", txt)
+    import pytrans_walk
+    try:
+        txt = pytrans_walk.generate(REPO)
+    except pytrans_walk.Unsupported as ex:
+        txt = ("(* GENERATED: harness/pytrans_walk.py could not translate the current source: %s *)\n"
+               "Definition translation_failed : True := untranslatable_source.\n" % str(ex).replace("*)", "* )"))
+    _write_gen("WalkGen.v", txt)
 
 
 def _write_gen(fname, txt):
